@@ -170,8 +170,20 @@ func (m *vxlanManager) OnUpdate(protoBufMsg any) {
 	case *proto.VXLANTunnelEndpointUpdate:
 		// Check to make sure that we are dealing with messages of the correct IP version.
 		if (m.ipVersion == 4 && msg.Ipv4Addr == "") || (m.ipVersion == 6 && msg.Ipv6Addr == "") {
-			// Skip since the update is for a mismatched IP version
-			m.logCtx.WithField("msg", msg).Debug("Skipping mismatched IP version update")
+			// The update carries no VTEP of our IP version.  If we knew one for this node it has been
+			// withdrawn (the calc graph coalesces the remove+update pair into this update), so forget it.
+			m.logCtx.WithField("msg", msg).Debug("Mismatched IP version update; dropping any VTEP we had for the node")
+			if msg.Node == m.hostname {
+				if m.getLocalVTEP() != nil {
+					m.setLocalVTEP(nil)
+					m.vtepsDirty = true
+					m.routeMgr.triggerRouteUpdate()
+				}
+			} else if _, ok := m.vtepsByNode[msg.Node]; ok {
+				delete(m.vtepsByNode, msg.Node)
+				m.vtepsDirty = true
+				m.routeMgr.triggerRouteUpdate()
+			}
 			return
 		}
 
